@@ -246,7 +246,7 @@ CONFIG = {
         "file.Store: resolveWritePath is modelled for relative slash-separated names (lexical filepath.Clean, refusal of names that leave the working directory; absolute names are generated only outside the working directory and refused) and compared with filepath.Clean on every generated name; symbolic links in the working directory, AllowPathTraversalOnWrite, the unpack annotation (pushDir) and manifest media types (restoreDuplicates, graph indexing) are not generated; names that alias one path ARE generated and modelled: there the property fails (known finding file-alias-clobbers-visible; C05_push_file_names assumes no_alias, C05_push_file_alias_refuted is the witness, C05_push_file_disable_overwrite needs no such hypothesis)",
         "store options and wrappers: DisableOverwrite, IgnoreNoName (documented discard: Push returns nil without reading), NewWithFallbackStorage(unlimited cas.Memory) are modelled (file_push_opt) and judged by the correspondence; ForceCAS only matters for manifests; the public oci.Store / memory.Store are judged against the oci.Storage / cas.Memory models (for non-manifest media types their Push adds only graph/index bookkeeping)",
         "cas.Proxy is modelled for a cas.Memory cache (NewProxy / NewProxyWithLimit), a caller that issues any sequence of Read sizes and then Close, StopCaching on/off; the io.Pipe is synchronous, which makes the session deterministic (a Write returns the prefix the push consumed + the push error, the drain loop after a successful push consumes the rest) -- this determinism is argued, the pipe itself is not a transition system; a caller that never calls Close (its observation would race with the push goroutine), Proxy over other cache implementations and Proxy.Exists are not modelled",
-        "concurrency: three transition systems with invariant theorems over every schedule -- oci.Storage pushes (cstep: Stat / CreateTemp / Write / Remove / Rename), cas.Memory / LimitedStorage pushes (mstep: Load / ReadAll / LoadOrStore), named file.Store pushes (fstep: name lock, duplicate check, resolveWritePath, Create, CopyBuffer, record-or-remove; digestToPath.Store and status.exists are one step); their exhaustive explorers are proved sound and complete, and for the OCI system splitting the Writes is proved not to add outcomes (C05_split_writes_explored); what remains unproved is only that the explorer's fuel (4n+2) exceeds the length of the unsplit schedule (at most 3 steps per thread) and races of 2-3 goroutines must end in one of the explored outcomes; larger races, oci.Store races and the 'at every instant' clause are observed by a polling goroutine (Fetch and a walk of blobs/), i.e. by sampling; no per-syscall traces",
+        "concurrency: three transition systems with invariant theorems over every schedule -- oci.Storage pushes (cstep: Stat / CreateTemp / Write / Remove / Rename), cas.Memory / LimitedStorage pushes (mstep: Load / ReadAll / LoadOrStore), named file.Store pushes (fstep: name lock, duplicate check, resolveWritePath, Create, CopyBuffer, record-or-remove; digestToPath.Store and status.exists are one step); their exhaustive explorers are proved sound and complete, and for the OCI system splitting the Writes is proved not to add outcomes (C05_split_writes_explored) and the explorer's fuel 4n+2 is proved sufficient (C05_explorer_fuel) and races of 2-3 goroutines must end in one of the explored outcomes; larger races, oci.Store races and the 'at every instant' clause are observed by a polling goroutine (Fetch and a walk of blobs/), i.e. by sampling; no per-syscall traces",
         "the in-Coq vm_compute re-evaluation of correspondence cases (ReadAll, CopyBuffer, faulty destination, store / file / proxy histories): about 70 goals in the quick tier, 360 in the thorough tier",
     ],
     "level_text": "Coq theorems for every reader script (arbitrary chunking, 0-byte reads, errors at any offsets, data with EOF/error), every descriptor, every digest function and every fuel above the script weight: ReadAll / FetchAll / any use of VerifyReader / CopyBuffer (any buffer size, also into a failing or short-writing destination) succeed only with exactly the descriptor's bytes and an exhausted reader, and do succeed on every well-behaved reader of the right bytes; malformed or unsupported digest, negative size, short or failing reader, wrong first-Size bytes and trailing bytes are always errors; Push on memory, limited, OCI and file stores (resolveWritePath and the options DisableOverwrite / IgnoreNoName / fallback limit included) stores exactly those bytes or leaves Exists/Fetch/blobs unchanged, over all histories; the caching proxy's cache only ever holds verified content over all fetch histories; three transition systems (OCI, memory/limited, named file pushes) keep everything visible verified under every schedule; refuted witnesses for the pre-fix negative size and for file-name aliasing. Model tied to the code by differential runs (scripted readers x descriptors x push / fetch histories on the real stores and wrappers, listings of blobs/, ingest/ and the working directory, a final sweep of every descriptor), outcome membership of goroutine races in the exhaustively explored (sound + complete) model outcomes, translator-regenerated digest table and source facts, an in-Coq vm_compute sample, and an independent SHA-2 oracle",
